@@ -3,12 +3,13 @@ from vlib import *
 import comp
 
 INV = ["WriteInside", "CanonicalAccepted"]
-OWN = {"C14": {"pc.decode", "pc.attr", "pc.return", "pc.gas", "pc.fork", "pc.panic"}, "C03": {"pc.panic"}}
+OWN = {"C14": {"pc.decode", "pc.attr", "pc.return", "pc.gas", "pc.fork", "pc.panic"}, "C03": {"pc.panic"}, "C20": {"pc.work"}}
+KINDS = {"C14": '{"read", "sender", "write", "attr"}', "C03": '{"read", "sender", "write", "attr", "work"}', "C20": '{"work"}'}
 
 
 def run(v, prop, tier):
     q = tier == "quick"
-    ov = {"Forks": '{"Istanbul", "Berlin", "London", "Cancun"}' if q else '{"Istanbul", "Berlin", "London", "Merge", "Shanghai", "Cancun"}'}
+    ov = {"Forks": '{"Istanbul", "Berlin", "London", "Cancun"}' if q else '{"Istanbul", "Berlin", "London", "Merge", "Shanghai", "Cancun"}', "Kinds": KINDS[prop]}
     r, stats = comp.emit_replay(v, "PrecompileScn", "Precompile_base.cfg", "precompile", 900, overrides=ov, invariants=INV + ["Emit"], workers=4,
                                 own_comps=OWN[prop], replay_key="vector", replay_hint=".build/verifh precompile -one <this file>")
     fees = r.get("fees") or {}
@@ -16,6 +17,10 @@ def run(v, prop, tier):
     for k, f in fees.items():
         per.setdefault(k.split("#")[0], set()).add(f)
     v.notes["precompile_fees_observed"] = {k: sorted(x) for k, x in per.items()}
+    if r.get("work"):
+        v.notes["precompile_work_vectors"] = r["work"]
+    if prop == "C20" and not r.get("work"):
+        raise InfraError("no work vector reached the precompiles")
     if prop == "C14":
         if set(per) != {"read", "write", "sender"}:
             raise InfraError("no fee observation for some precompile: %s" % per)
